@@ -966,4 +966,4 @@ package scipipe
 //@   requires maps: p.inPorts["sink_in"].RemotePorts != nil && outPort.RemotePorts != nil
 //@   modifies map[string]*OutPort, outPort.RemotePorts[*], InPort.ready, outPort.ready
 //@   ensures connected: outPort.ready && len(outPort.RemotePorts) > 0
-//@   ensures to-sink: outPort.RemotePorts[procName(p.inPorts["sink_in"].process) + ".sink_in"] == p.inPorts["sink_in"]
+//@   ensures to-sink: outPort.RemotePorts[procName(p.inPorts["sink_in"].process) + "." + p.inPorts["sink_in"].name] == p.inPorts["sink_in"]
